@@ -384,6 +384,7 @@ func c15DescsExec(c *core.Ctx, in c15Descs) {
 
 // reference verdict on unknown identifiers: does a straightforward reader meet an unknown component / parameter id?
 func c15RawExec(c *core.Ctx, in c15Raw) {
+	c.SetSub("raw", func() any { return in })
 	guardReset()
 	data := unhex(in.Hex)
 	c.Distinct(core.Hash64(in.Parser, data), len(data) >= 3)
